@@ -50,6 +50,8 @@ def run_shard(mod, mon: Monitor, tier: str, seed: int, shard: int, nshards: int)
 
     if gen.CHURN["crs"]:
         mon.obs["throw_away_crs_objects_between_cases"] += gen.CHURN["crs"]
+    if gen.WARM.get("warmed_operands"):
+        mon.obs["operands_looked_at_before_being_combined"] += gen.WARM["warmed_operands"]
     if gen.WARM["views"]:
         mon.obs["geoboxes_handed_over_as_resized_views_of_used_parents"] += gen.WARM["views"]
 
